@@ -101,7 +101,8 @@ pub fn iso_case(args: &Args, idx: u64) -> CaseOut {
     let mut has_prf: Vec<bool> = h.creds.iter().map(|c| c.2).collect();
     if h.register_first {
         // a fresh registration: reports zero, stores Some(0) iff configured
-        let r = block_on(auth.make_credential(mc_request(rp, b"fresh", &[1u8; 32], vec![pk_param(coset::iana::Algorithm::ES256)], None, None, true, true, true)));
+        // discoverable or not: the initial counter follows the configuration alone
+        let r = block_on(auth.make_credential(mc_request(rp, b"fresh", &[1u8; 32], vec![pk_param(coset::iana::Algorithm::ES256)], None, None, rng.bool(), true, true)));
         if let Ok(resp) = r {
             let ad = authdata::decode(&resp.auth_data.to_vec()).ok();
             let new_id = ad.as_ref().and_then(|a| a.attested.as_ref().map(|t| t.cred_id.clone())).unwrap_or_default();
